@@ -307,7 +307,9 @@ pub const ALLOC_LIMIT: usize = 8 << 20;
 pub fn run_load(env: &Env, bytes: &[u8], plan: IoPlan, budget: u64, force_progress: bool, key: [u8; 32]) -> (Res<Val>, LoadInfo) {
     let mut r = SimReader::new(bytes, plan, budget, force_progress);
     let mut slot = None;
-    let refused = crate::simalloc::with_alloc_limit(ALLOC_LIMIT, || {
+    // anything the simulated allocator refuses is absurd by C06's own yardstick (>= 64 x input + 1 MiB)
+    let limit = ALLOC_LIMIT.max(64 * bytes.len() + (1 << 20));
+    let refused = crate::simalloc::with_alloc_limit(limit, || {
         slot = Some(guarded(|| env.subj.load(&mut r, env.container, key)));
     });
     let res = match (refused, slot) {
